@@ -167,7 +167,8 @@ pub fn cmd_enum(args: &[String]) {
             run_case(&mk("cut", rel), &mut out);
         } else {
             run_case(&mk("whole", vec![total]), &mut out);
-            if total > 1 && (c["lines"].as_array().unwrap().len() <= 2 || !c["nul"].as_bool().unwrap_or(true)) {
+            // byte-by-byte delivery as well for the short transcripts (every second configuration)
+            if total > 1 && ((c["lines"].as_array().unwrap().len() <= 2 && canfd) || !c["nul"].as_bool().unwrap_or(true)) {
                 run_case(&mk("bytes", (1..=total).collect()), &mut out);
             }
         }
